@@ -32,11 +32,11 @@ def table():
 
 def _own_nodes(fn):
     """Nodes of the function body, not descending into nested defs/classes (lambdas and comprehensions included)."""
-    stack = list(fn.body)
+    stack = list(reversed(fn.body))
     while stack:
         n = stack.pop()
         yield n
-        for ch in ast.iter_child_nodes(n):
+        for ch in reversed(list(ast.iter_child_nodes(n))):
             if isinstance(ch, FUNC_TYPES + (ast.ClassDef,)):
                 continue
             stack.append(ch)
